@@ -143,13 +143,14 @@ def is_three_body(sname):
     return len(STRUCTS[sname]["finals"]) == 3
 
 
-def build_config(sname, chains=None, data=None, vertex=None, res_over=None, identical=True):
+def build_config(sname, chains=None, data=None, vertex=None, res_over=None, identical=True, top_over=None):
     """dict configuration for ConfigLoader.
 
     chains  : ordered list of chain keys of the structure (default: all, catalogue order); the order is the declaration order
     data    : extra entries of the `data:` section (random_z, align_ref, amp_model, ...)
     vertex  : {(mother, d1, d2): {decay option: value}}, e.g. {("A","R_BC","D"): {"p_break": True}}
-    res_over: {resonance: {key: value}} overrides of resonance properties
+    res_over: {resonance: {key: value}} overrides of resonance properties (e.g. {"R_BD": {"float": "g"}}: mass fixed, width floating)
+    top_over: {key: value} overrides of the decaying particle (e.g. {"spins": [-1, 1]}: only these helicities are populated)
     """
     st = STRUCTS[sname]
     chains = list(st["chains"]) if chains is None else list(chains)
@@ -170,7 +171,7 @@ def build_config(sname, chains=None, data=None, vertex=None, res_over=None, iden
                 if o in st["res"] and o not in used_res:
                     used_res.append(o)
     topn, topd = st["top"]
-    particle = {"$top": {N(topn): dict(topd)}, "$finals": {N(n): dict(d) for n, d in st["finals"]}}
+    particle = {"$top": {N(topn): dict(topd, **(top_over or {}))}, "$finals": {N(n): dict(d) for n, d in st["finals"]}}
     for r in used_res:
         particle[N(r)] = dict(st["res"][r])
         if res_over and r in res_over:
@@ -300,6 +301,34 @@ def cal_data(config, sname, ps):
     return config.data.cal_angle(p4dict(sname, [np.array(p) for p in ps]))
 
 
+def mixed_charges(n, seed):
+    """seeded per-event charges in {+1, -1}; both signs occur (n >= 2)"""
+    c = np.where(np.random.RandomState(9000 + int(seed)).uniform(size=n) < 0.5, -1.0, 1.0)
+    c[0], c[1] = 1.0, -1.0
+    return c
+
+
+def cal_data_extra(config, sname, ps, charge=None, weight=None):
+    """data object carrying per-event extra variables, built in memory the way the data section's `data_charge` / `data_weight`
+    files are consumed (tf_pwa/config_loader/data.py SimpleData.load_data): the extra variables are handed to cal_angle (the
+    preprocessor receives them under x["extra"], keys "charge_conjugation" and "weight") and are then attached to the data object."""
+    n = len(ps[0])
+    extra = {"weight": np.ones(n) if weight is None else np.array(weight, dtype=np.float64),
+             "charge_conjugation": np.ones(n) if charge is None else np.array(charge, dtype=np.float64)}
+    data = config.data.cal_angle(p4dict(sname, [np.array(p) for p in ps]), **extra)
+    for k, v in extra.items():
+        data[k] = v
+    return data
+
+
+def ulp_perturbed(ps, k, rel=4e-16):
+    """the events with every momentum component multiplied by 1 +- rel (seeded signs): a perturbation of 2-4 ulp, the size of the
+    rounding a strategy commits when it recomputes a kinematic quantity in another order.  Used to MEASURE the conditioning of the
+    density at each event (backward-error argument), never as test input."""
+    rs = np.random.RandomState(271828 + int(k))
+    return [np.array(p, dtype=np.float64) * (1.0 + rel * rs.choice([-1.0, 1.0], size=np.shape(p))) for p in ps]
+
+
 def density(config, amp, sname, ps):
     """public path: ConfigLoader.data.cal_angle(p4) -> amplitude model __call__"""
     data = cal_data(config, sname, ps)
@@ -420,6 +449,26 @@ def random_params(amp, seed, shape=True, polar=True):
         else:
             raise RuntimeError("unclassified parameter name %r" % name)
     return new
+
+
+def is_shape_name(name):
+    return name.endswith("_mass") or name.endswith("_width")
+
+
+def trainable_names(amp):
+    return list(amp.get_params(trainable_only=True))
+
+
+def overlay_trainable(amp, base, values, kinds=("shape", "coupling")):
+    """copy of `base` in which the TRAINABLE parameters of the given kinds ("shape": masses and widths, "coupling": everything
+    else) take their entries of `values`; fixed parameters keep their `base` value.  -> (params, names changed)"""
+    new = dict(base)
+    changed = []
+    for name in trainable_names(amp):
+        if ("shape" if is_shape_name(name) else "coupling") in kinds:
+            new[name] = values[name]
+            changed.append(name)
+    return new, changed
 
 
 def set_params(amp, params):
